@@ -12,7 +12,7 @@ from vlib import runner
 ID = "C02"
 MODULE = "PotasscoVerif.Props.C02"
 EXTRA_MODULES = ["PotasscoVerif.Props.C02o", "PotasscoVerif.Props.C02sem", "PotasscoVerif.Lemmas.AspEnum", "PotasscoVerif.Props.C02x", "PotasscoVerif.Lemmas.ConvertExt", "PotasscoVerif.Props.C02m", "PotasscoVerif.Lemmas.ConvertSteps", "PotasscoVerif.Lemmas.ConvertStepsExt"]
-THEOREMS = ["PotasscoVerif.C02.C02_steps_outputs", "PotasscoVerif.C02.C02_steps_equivalence", "PotasscoVerif.C02.C02_steps_equivalence_ext", "PotasscoVerif.C02.C02_steps_minimize", "PotasscoVerif.C02.C02_steps_cost", "PotasscoVerif.C02.C02_stable_models", "PotasscoVerif.C02.C02_equivalence", "PotasscoVerif.C02.C02_cost", "PotasscoVerif.C02.C02_compute_false",
+THEOREMS = ["PotasscoVerif.C02.C02_steps_outputs", "PotasscoVerif.C02.C02_steps_equivalence", "PotasscoVerif.C02.C02_steps_equivalence_ext", "PotasscoVerif.C02.C02_steps_minimize", "PotasscoVerif.C02.C02_steps_cost", "PotasscoVerif.C02.C02_steps_cost_ext", "PotasscoVerif.C02.C02_stable_models", "PotasscoVerif.C02.C02_equivalence", "PotasscoVerif.C02.C02_cost", "PotasscoVerif.C02.C02_compute_false",
             "PotasscoVerif.Asp.translation_stable", "PotasscoVerif.Asp.translation_stable_back", "PotasscoVerif.Asp.stableB_iff", "PotasscoVerif.Asp.stableModels_complete", "PotasscoVerif.Asp.stableModels_sound",
             "PotasscoVerif.C02.C02_map_injective", "PotasscoVerif.C02.C02_map_stable", "PotasscoVerif.C02.C02_aux_fresh", "PotasscoVerif.C02.convert_steps",
             "PotasscoVerif.C02.C02_minimize_flip", "PotasscoVerif.C02.C02_minimize_sorted", "PotasscoVerif.C02.flushMinimize_order",
@@ -23,7 +23,7 @@ THEOREMS = ["PotasscoVerif.C02.C02_steps_outputs", "PotasscoVerif.C02.C02_steps_
 PARTIAL = {"several steps with external directives, extension OFF": "proved for several steps: C02_steps_stable_models (no external directives, extension on or off) and C02_steps_stable_models_ext (ANY external "
            "directives, extension on: the directives of all steps read together — an external on an atom no rule of any step defines, the last directive over all steps counts — against the external calls emitted "
            "over all steps). Without the extension the externals of each step are compiled into rules at the end of that step and cannot be taken back in a later step: what such a program means over several "
-           "steps is not a property of the converter; there the check compares model == implementation and the atom map only. Shown names and costs are proved over all steps (C02_steps_equivalence, C02_steps_equivalence_ext, C02_steps_outputs, C02_steps_minimize, C02_steps_cost)"}
+           "steps is not a property of the converter; there the check compares model == implementation and the atom map only. Shown names and costs are proved over all steps (C02_steps_equivalence, C02_steps_equivalence_ext, C02_steps_outputs, C02_steps_minimize, C02_steps_cost, C02_steps_cost_ext)"}
 BSIZES = (4096,)
 LPCONVERT = True
 RULE = ("programs of 1..8 directives over 2..6 atoms: disjunctive/choice heads incl. empty, normal and weight bodies (bounds < 0, 0, reachable, unreachable; weights 0/1/mixed), "
